@@ -59,7 +59,7 @@ inductive LexItem where
   | mtrix (row : Nat) (ser : Nat) (v : List Flt) (given : Bool)
   | crystal (a b c al be ga : Flt) (sg : List Char)
   | master (numRemark numEmpty numXform numCoord : Nat)
-  | seqres
+  | seqres (serNum : Nat) (chain : Char) (numRes : Nat) (values : List (List Char))
   | dbref (chain : List Char) (lb : Int) (li : Char) (le : Int) (lei : Char) (db acc id : List Char)
       (db0 : Int) (dbi0 : Char) (db1 : Int) (dbi1 : Char)
   | dbref1 (chain : List Char) (lb : Int) (li : Char) (le : Int) (lei : Char) (db id : List Char)
@@ -235,6 +235,24 @@ def lexSsbond (ln : Nat) (line : List Char) : W LexItem :=
     if line.length ≥ 78 then (fStr ln line 59 65).2 ++ (fStr ln line 66 72).2 ++ (fF64 ln line 73 78).2 else []
   (.ssbond r1 s1 i1 [c1] r2 s2 i2 [c2], e1 ++ e2 ++ e3 ++ e4 ++ e5 ++ e6 ++ e7 ++ e8 ++ e9)
 
+/-- the residue names of a SEQRES record: three characters at character positions 19, 23, … while they fit
+into the first 71 characters, up to the first blank triple -/
+def seqresValues (chars : List Char) (max : Nat) : Nat → Nat → List (List Char)
+  | 0, _ => []
+  | fuel + 1, index =>
+    if index + 3 ≤ max then
+      let seq := (chars.drop index).take 3
+      if seq == [' ', ' ', ' '] then [] else seq :: seqresValues chars max fuel (index + 4)
+    else []
+
+/-- `lex_seqres` -/
+def lexSeqres (ln : Nat) (line : List Char) : W LexItem :=
+  let (serNum, e1) := fUsize ln line 7 10
+  let (chain, e2) := charW ln line 11
+  let (numRes, e3) := fUsize ln line 13 17
+  let max := min line.length 71
+  (.seqres serNum chain numRes (seqresValues line max max 19), e1 ++ e2 ++ e3)
+
 /-- `lex_remark`: at Medium and Strict an over-long line additionally yields a general warning -/
 def lexRemark (ln : Nat) (line : List Char) (lvl : Strictness) : W LexItem :=
   let (num, e1) := fUsize ln line 7 10
@@ -275,7 +293,7 @@ def lexLineRaw (line : List Char) (ln : Nat) (lvl : Strictness) (onlyAtomic : Bo
     else if full && head == "DBREF " then .ok (lexDbref ln line)
     else if full && head == "DBREF1" then .ok (lexDbref1 ln line)
     else if full && head == "DBREF2" then .ok (lexDbref2 ln line)
-    else if full && head == "SEQRES" then .ok (.seqres, [])
+    else if full && head == "SEQRES" then .ok (lexSeqres ln line)
     else if full && head == "SEQADV" then .ok (lexSeqadv ln line)
     else if full && head == "MODRES" then .ok (lexModres ln line)
     else if full && head == "SSBOND" then .ok (lexSsbond ln line)
